@@ -189,6 +189,9 @@ func cmdCheck(args []string) int {
 			replayed++
 			if !ok {
 				inconcl = append(inconcl, fmt.Sprintf("%s: counterexample for %q did not reproduce in replay (%s)", hs.Name, v.Label, why))
+				if os.Getenv("GOSYM_DEBUG") != "" {
+					fmt.Fprintf(os.Stderr, "DEBUG non-reproduced: kind=%s label=%q pos=%s\n  model=%v\n  chooses=%v decisions=%v\n  trace=%v\n", v.Kind, v.Label, v.Pos, sampleStrings(v.Model), v.Chooses, v.Decisions, v.Trace)
+				}
 				continue
 			}
 			rp := writeReplay(spec.Property, hs.Name, v)
